@@ -209,9 +209,16 @@ func VerifC08_List() {
 	var b []byte
 	vals := make([]verifVal, cnt)
 	for i := range vals {
-		vals[i] = verifNewVal(k, i > 0)
+		vals[i] = verifNewVal(k, i > 0 || vrt.Param("ENC") == 2)
 	}
 	packed := k != proto.STRING && k != proto.BYTE
+	if vrt.Param("ENC") == 2 {
+		packed = false // unpacked, every element a one-byte varint
+	}
+	if vrt.Param("ENC") == 1 {
+		// the field is declared [packed = false]: the reference encoder writes one record per element
+		packed = false
+	}
 	if cnt > 0 {
 		if packed {
 			var payload []byte
@@ -221,7 +228,7 @@ func VerifC08_List() {
 			b = gpw.AppendBytes(gpw.AppendTag(b, 2, gpw.BytesType), payload)
 		} else {
 			for i := range vals {
-				b = verifAppendVal(gpw.AppendTag(b, 2, gpw.BytesType), vals[i])
+				b = verifAppendVal(gpw.AppendTag(b, 2, verifWire(k)), vals[i])
 			}
 		}
 	}
